@@ -48,6 +48,14 @@ def lock_programs():
             out.append(dd + (wrap(w, (('T',),)),))                 # the final push itself inside the construct
     out.append((('T',),))
     out.append((('VERIFYW',), ('T',)))
+    # locks that rely on state the documentation says is carried over: functions defined and cache
+    # entries written by an earlier script (and locks that redefine them first)
+    out.append((('CALL0',), ('T',)))
+    out.append((('CALL1',), ('DROP',), ('T',)))
+    out.append((('GETV',), ('DROP',), ('T',)))
+    out.append((('DEF0', (('FAIL',),)), ('CALL0',), ('T',)))
+    out.append((('DEF0', ()), ('CALL0',), ('T',)))
+    out.append((('SETV',), ('GETV',), ('VERIFYW',), ('T',)))
     return list(dict.fromkeys(out))
 
 
@@ -183,6 +191,26 @@ def multi(ctx, ws):
     ctx.evaluations += n - 1
 
 
+def script_objects(ctx, w):
+    """ScriptProtocol objects (tools.Script) instead of bytes, in every position, give the same verdict"""
+    wb = spaces.render(w)
+    S = env.tools.Script
+    n = 0
+    for lb in LOCK_BYTES[::7]:
+        base, _ = run_impl([wb, lb], {}, DEFAULT_LIMITS)
+        for mix in ((True, True), (True, False), (False, True)):
+            n += 1
+            scripts = [S('', wb) if mix[0] else wb, S('ignored source', lb) if mix[1] else lb]
+            got, exc = run_impl(scripts, {}, DEFAULT_LIMITS)
+            ctx.ran()
+            ctx.trans(2)
+            ctx.state(('obj', wb, lb, mix))
+            if exc is not None or got is not base:
+                ctx.violation({'family': 'Script objects', 'clause': 'same verdict as the same bytes'},
+                              f'scripts {wb.hex()} {lb.hex()} as objects {mix}: {got!r} {exc!r} vs bytes {base!r}')
+    ctx.evaluations += max(n - 1, 0)
+
+
 def deprecated(ctx, w):
     """run_auth_script (deprecated single-script form) agrees and never raises"""
     import warnings
@@ -219,6 +247,8 @@ def blocks(tier, seed):
         Block('witness_x_lock_x_config', small, wit_lock_cfg,
               '<=1-node witnesses x locks x %d initial caches x %d limit triples' % (len(CACHES), len(LIMITS)), nshards=len(small)),
         Block('three_scripts', list(itertools.product(small, repeat=2)), multi, '[w1, w2, lock]', nshards=64),
+        Block('script_objects', lambda s, n: spaces.progs_upto(2, 'wit', s, n), script_objects,
+              'tools.Script objects in place of bytes in every position', nshards=16),
         Block('deprecated_run_auth_script', lambda s, n: spaces.progs_upto(2, 'wit', s, n), deprecated,
               'run_auth_script on <=2 node programs', nshards=16),
     ]
